@@ -328,6 +328,24 @@ class Laws(object):
         self.law('weeks-setter-consistent', (d == r) and hash(d) == hash(r) and len({d, r}) == 1, case,
                  'after d.weeks = %d: d = %r (hash %r), rebuilt from its fields %r (hash %r), hash before %r' % (w, d, hash(d), r, hash(r), h0), 'weeks')
 
+    def float_scaling(self):
+        """scaling a float field by a number that makes it whole gives exactly that whole value (every relative field is
+        scaled as a number, none is truncated first); the same through k * d and d / (1 / k)"""
+        R = self.R
+        for field in ('days', 'hours', 'minutes', 'seconds'):
+            for v in (0.5, 1.5, -2.5, 11.5, 0.25):
+                for k in (2, 4, -2, 8):
+                    if (v * k) != int(v * k):
+                        continue
+                    case = {'kw': {field: v}, 'scalar': k}
+                    want = R(**{field: int(v * k)})
+                    got = [try_(lambda: R(**{field: v}) * k), try_(lambda: k * R(**{field: v})), try_(lambda: R(**{field: v}) / (1.0 / k)),
+                           try_(lambda: R(days=2, **({field: v} if field != 'days' else {'hours': 3})) * k if field != 'days' else R(**{field: v}) * k)]
+                    ok = all(g[0] == 'ok' for g in got) and got[0][1] == want and got[1][1] == want and got[2][1] == want
+                    if ok and field != 'days':
+                        ok = got[3][1] == R(days=2 * k, **{field: int(v * k)})
+                    self.law('float-scaling-exact', ok, case, 'd*k, k*d, d/(1/k), (d with days=2)*k = %r, expected %r' % ([g[1] for g in got], want), field)
+
     def triple(self, kws):
         R = self.R
         x, y, z = [R(**k) for k in kws]
@@ -384,6 +402,8 @@ def run(ctx):
     sink.ev = lambda n=1: None
     inst = mon_rd.install(sink, check_add=False, check_invariant=True)
     laws = Laws(ctx, R, W)
+    if ctx.shard == 0:
+        laws.float_scaling()
     try:
         rng = ctx.rng
         for i in range(N_CASES[ctx.tier]):
